@@ -528,6 +528,10 @@ pub fn run(cfg: &Cfg) -> Report {
         let m = read_replay(p).unwrap_or_default();
         let s = parallel(&Cfg { threads: 1, ..cfg.clone() }, 9, |t| {
             let algos = crc_algos();
+            if m.get("kind").map(|s| s.as_str()) == Some("call-sequence") {
+                call_sequences_lane(t, "C10");
+                return;
+            }
             let name = m.get("algorithm").cloned().unwrap_or_default();
             let ai = algos.iter().position(|a| a.name == name).unwrap_or(0);
             let shape = match Shape::parse(m.get("shape").map(|s| s.as_str()).unwrap_or("")) {
@@ -670,6 +674,7 @@ pub fn run(cfg: &Cfg) -> Report {
             reader_backed(t, &shape, &val);
             crc32_wrappers(t, &shape, &val);
         }
+        call_sequences_lane(t, "C10");
     });
     rep.stats.merge(s);
     rep.floor("reader_backed_frames_accepted", 100);
